@@ -476,6 +476,47 @@ def mixed_success_cases(binfo, scratch):
     return out
 
 
+def dirty_directory_cases(binfo, scratch):
+    """No injected fault: the compilation runs in a directory that holds the leftovers of an earlier
+    build - every output of a full compile, plus object files of the generated C (as `gcc -c' or
+    `aldor -Fo' leave them).  Exit 0 needs every requested output, complete, under its own name."""
+    out = []
+    allk = list(ALL)
+    w = scratch.new()
+    full = worlds.compile_world(binfo, w, {"x.as": worlds.HELLO}, flags(allk), ["x.as"], cpu=60)
+    vsim.cleanup_world(w)
+    if full.rc != 0:
+        return out
+    left = dict(full.files)
+    left["x.o"] = b"\x7fELF leftover object\n"
+    left["x-aldormain.o"] = b"\x7fELF leftover object\n"
+    for kinds in (["c"], ["c", "main"], ["lsp", "fm"], ["ao", "java"], allk):
+        fl = flags(kinds)
+        wc = scratch.new()
+        clean = worlds.compile_world(binfo, wc, {"x.as": worlds.HELLO}, fl, ["x.as"], cpu=60)
+        vsim.cleanup_world(wc)
+        wd = scratch.new()
+        files = dict(left)
+        files["x.as"] = worlds.HELLO
+        r = worlds.compile_world(binfo, wd, files, fl, ["x.as"], cpu=60, skip_src=False)
+        vsim.cleanup_world(wd)
+        desc = "aldor %s x.as (in a directory with the leftovers of an earlier full build and x.o, x-aldormain.o)" % " ".join(fl)
+        verdict, detail = None, ""
+        fc = worlds.fault_class(r)
+        if fc:
+            verdict, detail = fc, (r.out + r.err)[-200:].decode("latin-1", "replace")
+        elif vsim.parse_log(r.log)["escapes"]:
+            verdict, detail = "output-escaped", ", ".join(vsim.parse_log(r.log)["escapes"][:3])
+        elif r.rc == 0 and clean.rc == 0:
+            bad = [k for k, v in clean.files.items() if r.files.get(k) != v]
+            if bad:
+                verdict, detail = "exit0-missing-output", "exit 0 but %s missing or different from what the same command writes in a clean directory (have %s)" % (", ".join(sorted(bad)), ", ".join(sorted(r.files)))
+        elif r.rc != 0 and clean.rc == 0 and not worlds.has_diag(r) and not (r.out + r.err).strip():
+            verdict, detail = "silent-refusal", "exit %r without a word" % r.rc
+        out.append((verdict, detail, desc, "dirty-" + "+".join(kinds) if len(kinds) < 5 else "dirty-all"))
+    return out
+
+
 def odd_name_cases(binfo, scratch):
     """No injected fault: legal but unusual source file names; exit 0 must leave the outputs
     under the name the compiler derives from the source name."""
@@ -516,7 +557,7 @@ def main(argv):
 
     with vsim.Scratch("c18") as scratch:
         if replay and "other_directory" in json.load(open(replay)):
-            od = [x for x in other_directory_cases(binfo, scratch) + explicit_name_cases(binfo, scratch) + error_count_cases(binfo, scratch) + odd_name_cases(binfo, scratch) + mixed_input_cases(binfo, scratch) + outdir_cases(binfo, scratch) + split_name_cases(binfo, scratch) + mixed_success_cases(binfo, scratch) if x[3] == json.load(open(replay))["other_directory"]]
+            od = [x for x in other_directory_cases(binfo, scratch) + explicit_name_cases(binfo, scratch) + error_count_cases(binfo, scratch) + odd_name_cases(binfo, scratch) + mixed_input_cases(binfo, scratch) + outdir_cases(binfo, scratch) + split_name_cases(binfo, scratch) + mixed_success_cases(binfo, scratch) + dirty_directory_cases(binfo, scratch) if x[3] == json.load(open(replay))["other_directory"]]
             vsim.say("replay: %s" % [(v, d) for v, d, _, _ in od])
             if any(v for v, _, _, _ in od):
                 vsim.say("VIOLATION property=%s replay=%s" % (PID, replay))
@@ -689,11 +730,11 @@ def main(argv):
             out.violations.append({"key": key, "cls": v2, "detail": d2, "replay": rp})
 
         # ---- saved forms in another directory (independent expectation, no fault) -----------
-        od = other_directory_cases(binfo, scratch) + explicit_name_cases(binfo, scratch) + error_count_cases(binfo, scratch) + odd_name_cases(binfo, scratch) + mixed_input_cases(binfo, scratch) + outdir_cases(binfo, scratch) + split_name_cases(binfo, scratch) + mixed_success_cases(binfo, scratch)
+        od = other_directory_cases(binfo, scratch) + explicit_name_cases(binfo, scratch) + error_count_cases(binfo, scratch) + odd_name_cases(binfo, scratch) + mixed_input_cases(binfo, scratch) + outdir_cases(binfo, scratch) + split_name_cases(binfo, scratch) + mixed_success_cases(binfo, scratch) + dirty_directory_cases(binfo, scratch)
         for verdict, detail, desc, kind in od:
             if not verdict:
                 continue
-            key = "%s:%s:%s" % (verdict, "explicit-name" if kind.startswith("name-") else "error-count" if kind.startswith("errors-") else "source-name" if kind.startswith("srcname-") else "mixed-inputs" if kind.startswith("mixed-") else "output-directory" if kind.startswith("outdir-") else "split-c-names" if kind.startswith("splitname-") else "mixed-success" if kind.startswith("mixedsuccess-") else "other-directory-input", kind)
+            key = "%s:%s:%s" % (verdict, "explicit-name" if kind.startswith("name-") else "error-count" if kind.startswith("errors-") else "source-name" if kind.startswith("srcname-") else "mixed-inputs" if kind.startswith("mixed-") else "output-directory" if kind.startswith("outdir-") else "split-c-names" if kind.startswith("splitname-") else "mixed-success" if kind.startswith("mixedsuccess-") else "dirty-directory" if kind.startswith("dirty-") else "other-directory-input", kind)
             text = out.classify(key)
             if text is not None:
                 out.known.append({"key": key, "text": text})
